@@ -290,7 +290,7 @@ def validator_facts(model, mname):
     return out
 
 
-def facts_before(f, var, line):
+def facts_before(f, var, line, node=None):
     """Facts about the local/parameter ``var`` established by dominating guards before ``line``:
     subset of {'ge0', 'gt0', 'le_len', 'lt_len', 'ne0'}."""
     facts = set()
@@ -379,6 +379,18 @@ def facts_before(f, var, line):
                     scan(s.body)
                     return
     scan(G.body_wo_doc(f))
+    # the use sits in a branch of a conditional expression: `f(v) if v else ...`
+    if node is not None:
+        for x in own_walk(f.node):
+            if isinstance(x, ast.IfExp):
+                in_body = any(node is y for y in ast.walk(x.body))
+                in_else = any(node is y for y in ast.walk(x.orelse))
+                if in_body:
+                    if isinstance(x.test, ast.Name) and x.test.id == var:
+                        facts.add('ne0')
+                    facts.update(pos_atoms(x.test))
+                elif in_else:
+                    facts.update(neg_atoms(x.test))
     if 'gt0' in facts or ('ge0' in facts and 'ne0' in facts):
         facts |= {'gt0', 'ge0', 'ne0'}
     if 'lt_len' in facts:
@@ -555,7 +567,7 @@ def rule_N1(ctx):
                     if arg.value > 0:
                         have |= {'gt0', 'ne0'}
                 elif isinstance(arg, ast.Name):
-                    have = facts_before(g, arg.id, cs.node.lineno)
+                    have = facts_before(g, arg.id, cs.node.lineno, node=cs.node)
                 else:
                     have = set()
                 if not need <= have:
